@@ -9,7 +9,8 @@ from common import (Rng, assumptions, coq_make, harness_build, harness_bin, hygi
                     write_evidence, write_replay, TRUSTED_BASE, WORK)
 
 PROP = "C13"
-THEOREMS = ["C13_model_smoke"]
+THEOREMS = ["C13_model_smoke", "C13_no_wedge_all_schedules", "C13_current_handlers_never_wedge", "C13_all_handlers_disciplined", "C13_blocked_thread_resumes",
+            "C13_parked_task_holds_no_map_lock", "C13_timeout_releases_locks", "C13_guard_across_await_deadlock_refuted", "C13_old_handler_undisciplined"]
 
 REQS = {
     "JOIN_new": lambda i: sl.frame("JOIN", [("id", i), ("channel", "!c3@localhost")]),
